@@ -268,6 +268,7 @@ def extract_fn(relpath, qual, ann):
             if p["wild"]:
                 ed.add(p["span"][0], p["span"][1], f"_p{n}", "R1")
                 n += 1
+    apply_ref_closure_params(ed, it.get("closures", []), src, ann)
     # loops
     for k, ltext in (ann.get("loops") or {}).items():
         k = int(k)
@@ -337,7 +338,9 @@ def extract_fn(relpath, qual, ann):
     apply_storage_has(ed, it, src)
     apply_anyloops(ed, it, it["closures"], src, ann, qual)
     apply_findloops(ed, it, it["closures"], src, ann, qual)
+    apply_posloops(ed, it, it["closures"], src, ann, qual)
     apply_findmuts(ed, it, it["closures"], src, ann, qual)
+    apply_findmut_lets(ed, it, it["closures"], src, ann, qual)
     # R6 response attributes
     if ann.get("drop_response_attrs", True):
         for m in it.get("mcalls", []):
@@ -461,23 +464,84 @@ def apply_findloops(ed, it, closures, src, ann, qual):
         if len(mp) != 1 or len(c["params"]) != 1:
             raise Inconclusive(f"D17: closure #{k} of {qual} is not the argument of a .find(|p| ..) call")
         mp = mp[0]
-        itc = [m for m in it["mcalls"] if m["name"] == "iter" and m["span"][1] == mp["recv_end"]]
+        itc = [m for m in it["mcalls"] if m["name"] in ("iter", "into_iter") and m["span"][1] == mp["recv_end"]]
         if len(itc) != 1:
             raise Inconclusive(f"D17: .find of closure #{k} in {qual} is not of the shape X.iter().find(..)")
+        itc = itc[0]
+        if itc["name"] == "into_iter":
+            ed.log.append({"file": "", "line": _srcline(src, itc["span"][0]), "rule": "D17",
+                           "note": "`X.into_iter().find(..)`: the source is bound by value and the loop yields the element itself (verif_elem: the element at that index)"})
+        xsrc = src[itc["span"][0]:itc["recv_end"]].decode()
+        ptxt = src[c["params"][0]["span"][0]:c["params"][0]["span"][1]].decode().strip()
+        if ptxt.startswith("&"):
+            ptxt = ptxt[1:].strip()
+        b0, b1 = c["body"]
+        byval = itc["name"] == "into_iter"
+        head = ("{ let verif_fv = " + ("" if byval else "&") + xsrc + "; let mut verif_found: Option<" + ("" if byval else "&") + elem_ty + "> = None; let mut verif_fi: usize = 0;\n"
+                "while verif_fi < verif_fv.len()\n" + inv.rstrip() + "\n    decreases verif_fv.len() - verif_fi\n"
+                "{ let " + ptxt + " = &verif_fv[verif_fi]; if ")
+        ed.add(itc["span"][0], b0, head, "D17", f"`{xsrc.strip()[:30]}.iter().find(..)` desugared to an index loop stopping at the first match (closure body copied by span)")
+        hit = (ann.get("findhits") or {}).get(str(k), "").strip()
+        ext = (ann.get("findexits") or {}).get(str(k), "").strip()
+        found = "verif_elem(&verif_fv, verif_fi)" if byval else ptxt
+        ed.add(b1, mp["span"][1], " { verif_found = Some(" + found + "); " + hit + " break; } verif_fi = verif_fi + 1; } " + ext + " verif_found }", None)
+
+
+
+def apply_ref_closure_params(ed, closures, src, ann):
+    """R1 (reference patterns): a closure parameter `&name` (pattern destructuring the reference the caller passes) is spelled
+    `verif_r_name` with `let name = *verif_r_name;` as first statement of the body - Verus rejects reference patterns in closure
+    parameters. Closures consumed by a loop desugaring (D2/D16/D17/D19) are left to that rule."""
+    taken = set()
+    for key in ("maploops", "anyloops", "findloops", "posloops", "findmuts", "findmutlets"):
+        for k in (ann.get(key) or {}):
+            taken.add(int(str(k).split()[0]))
+    for idx, c in enumerate(closures):
+        if idx in taken:
+            continue
+        binds = []
+        for p in c["params"]:
+            t = src[p["span"][0]:p["span"][1]].decode().strip()
+            m = re.match(r"^&\s*(\w+)$", t)
+            if m:
+                ed.add(p["span"][0], p["span"][1], f"verif_r_{m.group(1)}", "R1", f"closure parameter `&{m.group(1)}` spelled as a reference + `let {m.group(1)} = *..`")
+                binds.append(f"let {m.group(1)} = *verif_r_{m.group(1)}; ")
+        if binds:
+            if c["body_is_block"]:
+                ed.add(c["body"][0] + 1, c["body"][0] + 1, " " + "".join(binds), None)
+            else:
+                already = str(idx) in {str(k) for k in (ann.get("closures") or {})}
+                ed.add(c["body"][0], c["body"][0], ("" if already else "{ ") + "".join(binds), None)
+                if not already:
+                    ed.add(c["body"][1], c["body"][1], " }", None)
+
+
+def apply_posloops(ed, it, closures, src, ann, qual):
+    """D17 (index form): `X.iter().position(|p| COND)` -> a block holding an index loop over X that stops at the first element satisfying
+    COND (copied by span) and yields `Option<usize>` (`//@posloop k`; invariant supplied by the annotation)."""
+    for k, inv in (ann.get("posloops") or {}).items():
+        k = int(k)
+        if k >= len(closures):
+            raise Inconclusive(f"anchor lost: closure #{k} of {qual} (posloop)")
+        c = closures[k]
+        mp = [m for m in it["mcalls"] if m["name"] == "position" and len(m["args"]) == 1 and m["args"][0] == c["span"]]
+        if len(mp) != 1 or len(c["params"]) != 1:
+            raise Inconclusive(f"D17: closure #{k} of {qual} is not the argument of a .position(|p| ..) call")
+        mp = mp[0]
+        itc = [m for m in it["mcalls"] if m["name"] == "iter" and m["span"][1] == mp["recv_end"]]
+        if len(itc) != 1:
+            raise Inconclusive(f"D17: .position of closure #{k} in {qual} is not of the shape X.iter().position(..)")
         itc = itc[0]
         xsrc = src[itc["span"][0]:itc["recv_end"]].decode()
         ptxt = src[c["params"][0]["span"][0]:c["params"][0]["span"][1]].decode().strip()
         if ptxt.startswith("&"):
             ptxt = ptxt[1:].strip()
         b0, b1 = c["body"]
-        head = ("{ let verif_fv = &" + xsrc + "; let mut verif_found: Option<&" + elem_ty + "> = None; let mut verif_fi: usize = 0;\n"
-                "while verif_fi < verif_fv.len()\n" + inv.rstrip() + "\n    decreases verif_fv.len() - verif_fi\n"
-                "{ let " + ptxt + " = &verif_fv[verif_fi]; if ")
-        ed.add(itc["span"][0], b0, head, "D17", f"`{xsrc.strip()[:30]}.iter().find(..)` desugared to an index loop stopping at the first match (closure body copied by span)")
-        hit = (ann.get("findhits") or {}).get(str(k), "").strip()
-        ext = (ann.get("findexits") or {}).get(str(k), "").strip()
-        ed.add(b1, mp["span"][1], " { verif_found = Some(" + ptxt + "); " + hit + " break; } verif_fi = verif_fi + 1; } " + ext + " verif_found }", None)
-
+        head = ("{ let verif_pv = &" + xsrc + "; let mut verif_pos: Option<usize> = None; let mut verif_pi: usize = 0;\n"
+                "while verif_pi < verif_pv.len()\n" + inv.rstrip() + "\n    decreases verif_pv.len() - verif_pi\n"
+                "{ let " + ptxt + " = &verif_pv[verif_pi]; if ")
+        ed.add(itc["span"][0], b0, head, "D17", f"`{xsrc.strip()[:30]}.iter().position(..)` desugared to an index loop stopping at the first match (closure body copied by span)")
+        ed.add(b1, mp["span"][1], " { verif_pos = Some(verif_pi); break; } verif_pi = verif_pi + 1; } verif_pos }", None)
 
 
 def apply_findmuts(ed, it, closures, src, ann, qual):
@@ -531,6 +595,64 @@ def apply_findmuts(ed, it, closures, src, ann, qual):
                f"`{xsrc}.iter_mut().find(..)` desugared to an index loop yielding the index of the first match (closure body copied by span)")
         ed.add(then["span"][0] + 1, then["span"][0] + 1, f" let mut {name} = {xsrc}[verif_mx{k}].clone(); ", "D19", f"THEN block works on a clone of `{xsrc}[idx]` written back by `set`")
         ed.add(then["span"][1] - 1, then["span"][1] - 1, f" {xsrc}.set(verif_mx{k}, {name}); ", None)
+
+
+def apply_findmut_lets(ed, it, closures, src, ann, qual):
+    """D19 (let form): `let NAME = V.iter_mut().find(|p| COND).ok_or(ERR)?;` immediately followed by `NAME.F = E;` or `NAME.F += E;`
+    -> index loop yielding the index of the first match (COND by span), `let idx = found.ok_or(ERR)?;`, and the update performed on a
+    clone of `V[idx]` that is written back with `V.set(idx, NAME)` (`+=` spelled `NAME.F = NAME.F + E`). Accepted only in that shape."""
+    for k, inv in (ann.get("findmutlets") or {}).items():
+        k = int(k)
+        if k >= len(closures):
+            raise Inconclusive(f"anchor lost: closure #{k} of {qual} (findmutlet)")
+        c = closures[k]
+        mp = [m for m in it["mcalls"] if m["name"] == "find" and len(m["args"]) == 1 and m["args"][0] == c["span"]]
+        if len(mp) != 1 or len(c["params"]) != 1:
+            raise Inconclusive(f"D19: closure #{k} of {qual} is not the argument of a .find(|p| ..) call")
+        mp = mp[0]
+        itc = [m for m in it["mcalls"] if m["name"] == "iter_mut" and m["span"][1] == mp["recv_end"]]
+        oko = [m for m in it["mcalls"] if m["name"] == "ok_or" and m["recv_end"] == mp["span"][1] and len(m["args"]) == 1]
+        if len(itc) != 1 or len(oko) != 1:
+            raise Inconclusive(f"D19: .find of closure #{k} in {qual} is not of the shape V.iter_mut().find(..).ok_or(E)?")
+        itc, oko = itc[0], oko[0]
+        xsrc = src[itc["span"][0]:itc["recv_end"]].decode().strip()
+        if not re.match(r"^\w+$", xsrc):
+            raise Inconclusive(f"D19: `{xsrc[:30]}` is not a plain local vector")
+        allst = [x for b in it.get("blocks", []) for x in b["stmts"]] + list(it["stmts"])
+        lets = [x for x in allst if x["kind"] == "let" and x["span"][0] <= itc["span"][0] and oko["span"][1] <= x["span"][1]]
+        if not lets:
+            raise Inconclusive(f"D19: find-mut #{k} of {qual} is not the initialiser of a let")
+        let = min(lets, key=lambda x: x["span"][1] - x["span"][0])
+        ltxt = src[let["span"][0]:let["span"][1]].decode()
+        ml = re.match(r"^let\s+(\w+)\s*=", ltxt)
+        if not ml or not re.search(r"\?\s*;\s*$", ltxt):
+            raise Inconclusive(f"D19: find-mut #{k} of {qual}: expected `let name = ..ok_or(..)?;`")
+        name = ml.group(1)
+        blk = [b for b in it["blocks"] if any(x["span"] == let["span"] for x in b["stmts"])]
+        if len(blk) != 1:
+            raise Inconclusive(f"D19: enclosing block of find-mut #{k} in {qual} not found")
+        sts = blk[0]["stmts"]
+        i = [j for j, x in enumerate(sts) if x["span"] == let["span"]][0]
+        if i + 1 >= len(sts):
+            raise Inconclusive(f"D19: nothing follows the let of find-mut #{k} in {qual}")
+        nx = sts[i + 1]
+        ntxt = src[nx["span"][0]:nx["span"][1]].decode().strip()
+        mu = re.match(r"^" + name + r"\.(\w+)\s*(\+?=)\s*(.+);$", ntxt, re.S)
+        if not mu or ("*" + name) in ntxt:
+            raise Inconclusive(f"D19: the statement after find-mut #{k} in {qual} is not `{name}.field = E;` / `{name}.field += E;`")
+        fld, op, rhs = mu.group(1), mu.group(2), mu.group(3).strip()
+        ptxt = src[c["params"][0]["span"][0]:c["params"][0]["span"][1]].decode().strip()
+        b0, b1 = c["body"]
+        cond = src[b0:b1].decode()
+        err = src[oko["args"][0][0]:oko["args"][0][1]].decode()
+        loop = (f"let mut verif_mh{k}: Option<usize> = None; let mut verif_mi{k}: usize = 0;\n"
+                f"while verif_mi{k} < {xsrc}.len()\n" + inv.rstrip() + f"\n    decreases {xsrc}.len() - verif_mi{k}\n"
+                f"{{ let {ptxt} = &{xsrc}[verif_mi{k}]; if {cond} {{ verif_mh{k} = Some(verif_mi{k}); break; }} verif_mi{k} = verif_mi{k} + 1; }}\n"
+                f"let verif_mx{k}: usize = verif_mh{k}.ok_or({err})?;\n")
+        upd = f"{name}.{fld} = {name}.{fld} + {rhs};" if op == "+=" else f"{name}.{fld} = {rhs};"
+        ext = (ann.get("findmutletexits") or {}).get(str(k), "").strip()
+        ed.add(let["span"][0], nx["span"][1], loop + f"{{ let mut {name} = {xsrc}[verif_mx{k}].clone(); {upd} {xsrc}.set(verif_mx{k}, {name}); }}\n{ext}", "D19",
+               f"`let {name} = {xsrc}.iter_mut().find(..).ok_or(..)?; {name}.{fld} {op} ..;` desugared to an index loop + update of a clone written back by `set`")
 
 
 def apply_storage_has(ed, it, src, inside=lambda sp: True):
@@ -854,6 +976,8 @@ def extract_segment(relpath, qual, ann):
     parameters are the free locals (declared in the unit). Everything before `from` is dropped: the parameters are
     arbitrary, i.e. the contract holds for every state/values that can reach this point."""
     it, parent, src = find_item(relpath, qual, ("fn",))
+    if ann.get("before_stmt"):
+        raise Inconclusive(f"//@before_stmt is not available in M4 segments ({ann.get('seg_name')}): use //@segtail, //@after <let> or a loop hook")
     def norm(x): return re.sub(r"\s+", " ", src[x["span"][0]:x["span"][1]].decode())
     # the block (top-level body or a nested block) that owns the unique statement starting with `from`
     cands = [("top", it["stmts"])] + [("nested", b["stmts"]) for b in it.get("blocks", [])]
@@ -883,6 +1007,7 @@ def extract_segment(relpath, qual, ann):
             if pp["wild"]:
                 ed.add(pp["span"][0], pp["span"][1], f"_p{n}", "R1"); n += 1
     seg_closures = [c for c in it.get("closures", []) if inside(c["span"])]
+    apply_ref_closure_params(ed, seg_closures, src, ann)
     for k, ctext in (ann.get("closures") or {}).items():
         k = int(k)
         if k >= len(seg_closures):
@@ -958,7 +1083,9 @@ def extract_segment(relpath, qual, ann):
     apply_storage_has(ed, it, src, inside)
     apply_anyloops(ed, it, seg_closures, src, ann, qual)
     apply_findloops(ed, it, seg_closures, src, ann, qual)
+    apply_posloops(ed, it, seg_closures, src, ann, qual)
     apply_findmuts(ed, it, seg_closures, src, ann, qual)
+    apply_findmut_lets(ed, it, seg_closures, src, ann, qual)
     if ann.get("tail") and k1 == len(st):
         ed.add(st[-1]["span"][0], st[-1]["span"][0], ann["tail"].rstrip() + "\n", "A1")
     body_text, segs = ed.render()
